@@ -2,6 +2,7 @@
 import json, os, subprocess
 from vlib import *
 import heapfam
+import jsonfam
 
 
 def heap_run(prop, tier, seed, scratch):
@@ -47,5 +48,39 @@ _TEXT = {
 for _p in ["C05", "C06", "C07", "C08", "C09", "C10", "C11", "C13", "C19"]:
     REGISTRY[_p] = dict(run=heap_run, replay=heap_replay, level="model_checking", assumptions=HEAP_ASSUME, engine="tlc-heap",
                         level_text=_TEXT[_p], level_note=HEAP_NOTE, technique=HEAP_TECH)
+
+
+def ser_run(check):
+    def run(prop, tier, seed, scratch):
+        return jsonfam.run_ser(prop, tier, seed, scratch, check)
+    return run
+
+
+def doc_replay(prop, path, scratch):
+    vh = build_harness(scratch)
+    p = subprocess.run([vh, "docreplay", "-file", path])
+    return p.returncode if p.returncode in (0, 1) else 2
+
+
+JSON_ASSUME = [
+    "TLC enumerates spec/JsonText.tla exhaustively only inside the token/depth/width bounds recorded in the evidence",
+    "scalar classes are concretised by the harness: every Unicode scalar value in the thorough tier (sampled in quick), float64/int values sampled",
+    "oracles independent of the library: encoding/json, the harness's strict RFC 8259 reader, strconv; the Go layout renderer is cross-checked against TLC's Layout on every document",
+]
+JSON_NOTE = ("TLC decides structure, kind and class of every document inside the bounds; the member of each class (code point, float64 bit pattern) is chosen on the Go side, "
+             "exhaustively only for code points in the thorough tier. Trusted: TLC, encoding/json/strconv as reference decoders, the harness's strict reader.")
+JSON_TECH = "TLA+ pushdown model of RFC 8259 (JsonText.tla) enumerated by TLC (RefAgree/LayoutOK invariants); generated documents built/parsed with the real library and judged by independent reference decoders"
+ENGINES.append({"name": "tlc-json", "path": "spec/JsonText.tla bin/jsonfam.py harness/jsonx harness/cmd/vh/docs.go",
+                "serves_properties": ["C01", "C02", "C16"],
+                "kind_free_text": "explicit TLA+ pushdown machine for JSON documents; TLC enumerates all documents (with scalar classes) inside the bounds together with the "
+                                  "reference tree and canonical layout; the Go harness concretises and runs the real serialiser/parser against independent decoders"})
+_JT = {
+    "C01": "Every TLC-enumerated tree (all scalar classes as value and key, both roots) is built with the API, serialised, re-parsed: no error, Equals both ways, an independent TypeOf/Get walk finds the same kinds and bit-identical floats, and a second round trip is stable; plus all code points, sampled float64/int, deep random trees.",
+    "C02": "String() of every such container must be accepted by encoding/json and by a strict RFC 8259 reader, and both must decode exactly the stored data (byte-identical strings/keys, ints exact, floats bit-identical).",
+    "C16": "FormatString(n), n in 0..10, must be non-empty valid JSON with the same data and scalar texts as String() and equal byte for byte to the canonical layout (TLC's Layout(tree), cross-checked with the Go renderer on every document); indents outside 0..10 (including values that wrap modulo 256) must panic; the container is unchanged.",
+}
+for _p, _c in [("C01", "roundtrip"), ("C02", "stdjson"), ("C16", "format")]:
+    REGISTRY[_p] = dict(run=ser_run(_c), replay=doc_replay, level="model_checking", assumptions=JSON_ASSUME, engine="tlc-json",
+                        level_text=_JT[_p], level_note=JSON_NOTE, technique=JSON_TECH)
 
 PENDING = {}
